@@ -365,6 +365,11 @@ fn check_config(rep: &Report, local: &mut Local, fc: &FullCfg, probes: &[Case]) 
         }
         if bad.is_empty() {
             for p in probes {
+                // the warm-up probe runs in single-thread configurations only: what it looks for is a panic
+                // of the encoder, and a panic inside a worker thread costs the watchdog's patience per case
+                if p.input.atoms[0] == 34 && fc.multithread {
+                    continue;
+                }
                 run_probe(rep, local, fc, &vc, p, p.input.bs as usize, &cj, w + 10);
             }
             if fc.block_size >= 32 && fc.block_size != 4096 || fc.lpc_order == 24 {
